@@ -88,12 +88,13 @@ fn mk_values(syn: SyntaxType, valid: &[bool], salt: u64) -> Vec<Value> {
         .map(|(i, ok)| {
             let k = salt * 16 + i as u64;
             match syn {
-                // invalid: not lower case
-                SyntaxType::Utf8StringInsensitive => Value::Iutf8(if *ok { format!("v{k}") } else { format!("V{k}") }),
+                // invalid: a line break (the first value of a set is lower-cased by the constructor, so
+                // upper case would not survive)
+                SyntaxType::Utf8StringInsensitive => Value::Iutf8(if *ok { format!("v{k}") } else { format!("v{k}\nx") }),
                 // invalid: a line break
                 SyntaxType::Utf8String => Value::Utf8(if *ok { format!("Text {k}") } else { format!("two\nlines {k}") }),
-                // invalid: upper case is not a valid iname
-                SyntaxType::Utf8StringIname => Value::Iname(if *ok { format!("name{k}") } else { format!("Name{k}") }),
+                // invalid: a space is outside the iname alphabet
+                SyntaxType::Utf8StringIname => Value::Iname(if *ok { format!("name{k}") } else { format!("bad name{k}") }),
                 SyntaxType::Uuid => Value::Uuid(nat_uuid(0x1500_0000 + k)),
                 SyntaxType::Boolean => Value::Bool(i % 2 == 0),
                 SyntaxType::Uint32 => Value::Uint32(k as u32),
@@ -162,8 +163,21 @@ fn gen_case(rng: &mut Rng, heavy: bool) -> Case {
     let mut classes = vec![];
     // object: what the shipped schema says, sometimes without the cid attributes
     let mut object = ClassDef { name: c_name(EntryClass::Object), ..Default::default() };
-    object.lists[0] = vec![a_class(), a_uuid()];
-    object.lists[2] = if rng.chance(1, 12) { vec![a_su()] } else { vec![a_lm(), a_ca(), a_su()] };
+    // the shipped `object`: class, uuid and the two cid attributes are required
+    match rng.below(12) {
+        0 => {
+            object.lists[0] = vec![a_class(), a_uuid()];
+            object.lists[2] = vec![a_lm(), a_ca(), a_su()];
+        }
+        1 => {
+            object.lists[0] = vec![a_class(), a_uuid()];
+            object.lists[2] = vec![a_su()];
+        }
+        _ => {
+            object.lists[0] = vec![a_class(), a_uuid(), a_lm(), a_ca()];
+            object.lists[2] = vec![a_su()];
+        }
+    }
     classes.push(object);
     for c in [EntryClass::Conflict, EntryClass::Recycled, EntryClass::ExtensibleObject, EntryClass::Tombstone] {
         if !rng.chance(1, 25) {
@@ -270,7 +284,7 @@ fn gen_case(rng: &mut Rng, heavy: bool) -> Case {
         want.push(a_su());
     }
     for (i, a) in want.iter().enumerate() {
-        if entry.iter().any(|x| &x.attr == a) || *a == a_lm() || *a == a_ca() {
+        if entry.iter().any(|x| &x.attr == a) || *a == a_lm() || *a == a_ca() || *a == a_class() || *a == a_uuid() {
             continue;
         }
         let (syn, mv) = match adef(a) {
